@@ -105,6 +105,8 @@ class SyncSuite(Suite):
                  "opt": o["opt"], "notif": i.get("notif", [])}
             if "sfilter" in o:
                 m["sfilter"] = o["sfilter"]
+            if "sfilter2" in o:
+                m["sfilter2"] = o["sfilter2"]
             out.append(m)
         return out
 
@@ -253,7 +255,7 @@ class SendFilter(SyncSuite):
     name = "sendfilter"
     focus = ("c01", "c11")
     unpriv_share = 0
-    rule = ("sources with hard-link groups spread over included and excluded paths x include/exclude lists from the pattern fragment; real Send over "
+    rule = ("sources with hard-link groups spread over included and excluded paths x include/exclude lists from the pattern fragment; (30% with a second filter stacked on top); real Send over "
             "NewFilterFS(view) + Receive; STAT log vs filterWalk + hard-link reset model; destination = filtered view; non-trivial = filter non-empty, distinct")
 
     def gen_case(self, rng):
@@ -274,8 +276,17 @@ class SendFilter(SyncSuite):
             sf["include"] = [hx(p) for p in filt.pattern_list(rng, paths, 0.2)]
             sf["exclude"] = [hx(p) for p in filt.pattern_list(rng, paths, 0.3)]
         dst = [] if rng.random() < 0.6 else gen.mutate_disk_tree(rng, tree)
-        return {"op": "sync", "src": {"kind": "mem" if rng.random() < 0.7 else "disk", "tree": tree}, "dst": dst, "sfilter": sf,
-                "opt": {"notify": True, "cap": rng.choice([0, 4, 32]), "seed": rng.randrange(1 << 30)}}
+        op = {"op": "sync", "src": {"kind": "mem" if rng.random() < 0.7 else "disk", "tree": tree}, "dst": dst, "sfilter": sf,
+              "opt": {"notify": True, "cap": rng.choice([0, 4, 32]), "seed": rng.randrange(1 << 30)}}
+        if rng.random() < 0.3:
+            # nested filter stack: a second NewFilterFS on top of the first
+            sf2 = {}
+            if rng.random() < 0.5:
+                sf2["exclude"] = [hx(p) for p in filt.pattern_list(rng, paths, 0.3)]
+            else:
+                sf2["include"] = [hx(p) for p in filt.pattern_list(rng, paths, 0.2)]
+            op["sfilter2"] = sf2
+        return op
 
     def judge(self, op, impl, model):
         v = super().judge(op, impl, model)
@@ -289,7 +300,8 @@ class SendFilter(SyncSuite):
     matchers = {
         # F5: the walk announces a file (parent-result matcher) that Open (stateless matcher) refuses: it arrives empty.
         # Signature: a '!' pattern is present and the announced STAT sequence is exactly the model's filtered view.
-        "F5": lambda op, impl, model: any(bytes.fromhex(p).strip().startswith(b"!") for p in op["sfilter"].get("include", []) + op["sfilter"].get("exclude", []))
+        "F5": lambda op, impl, model: any(bytes.fromhex(p).strip().startswith(b"!") for p in op["sfilter"].get("include", []) + op["sfilter"].get("exclude", []) +
+                                                         op.get("sfilter2", {}).get("include", []) + op.get("sfilter2", {}).get("exclude", []))
         and [norm_stat(s) for s in sent_stats(impl)] == [norm_stat(s) for s in model.get("sent", [])],
     }
 
